@@ -240,6 +240,14 @@ func VfC18_GlobalEnums() {
 	cd := &ir.ComdatDef{Name: "c", Kind: enum.SelectionKindAny}
 	m.ComdatDefs = append(m.ComdatDefs, cd)
 	g.Comdat = cd
+	// every kind of top-level entity that carries these keywords: an alias, an
+	// ifunc and a function declaration next to the two definitions
+	tgt := m.NewGlobalDef("tgt", constant.NewInt(types.I32, 1))
+	al := m.NewAlias("al", tgt)
+	res := m.NewFunc("res", types.NewPointer(types.NewFunc(types.Void)))
+	res.NewBlock("entry").NewRet(constant.NewNull(types.NewPointer(types.NewFunc(types.Void))))
+	ifn := m.NewIFunc("ifn", res)
+	decl := m.NewFunc("decl", types.Void)
 	var k int
 	switch fam {
 	case 0:
@@ -250,8 +258,12 @@ func VfC18_GlobalEnums() {
 		if l == enum.LinkageExternal || l == enum.LinkageExternWeak {
 			g.Init = nil
 			g.Comdat = nil
+			decl.Linkage = l
+		} else {
+			f.Linkage = l
 		}
 		g.Linkage = l
+		al.Linkage, ifn.Linkage = l, l
 	case 1:
 		k = vfChoice("member", len(hGenM_Preemption))
 		if hGenM_Preemption[k] == enum.PreemptionDSOLocalEquivalent {
@@ -261,21 +273,26 @@ func VfC18_GlobalEnums() {
 		}
 		g.Preemption = hGenM_Preemption[k]
 		f.Preemption = hGenM_Preemption[k]
+		al.Preemption, ifn.Preemption, decl.Preemption = g.Preemption, g.Preemption, g.Preemption
 	case 2:
 		k = vfChoice("member", len(hGenM_Visibility))
 		g.Visibility = hGenM_Visibility[k]
 		f.Visibility = hGenM_Visibility[k]
+		al.Visibility, ifn.Visibility, decl.Visibility = g.Visibility, g.Visibility, g.Visibility
 	case 3:
 		k = vfChoice("member", len(hGenM_DLLStorageClass))
 		g.DLLStorageClass = hGenM_DLLStorageClass[k]
 		f.DLLStorageClass = hGenM_DLLStorageClass[k]
+		al.DLLStorageClass, ifn.DLLStorageClass, decl.DLLStorageClass = g.DLLStorageClass, g.DLLStorageClass, g.DLLStorageClass
 	case 4:
 		k = vfChoice("member", len(hGenM_TLSModel))
 		g.TLSModel = hGenM_TLSModel[k]
+		al.TLSModel, ifn.TLSModel = g.TLSModel, g.TLSModel
 	case 5:
 		k = vfChoice("member", len(hGenM_UnnamedAddr))
 		g.UnnamedAddr = hGenM_UnnamedAddr[k]
 		f.UnnamedAddr = hGenM_UnnamedAddr[k]
+		al.UnnamedAddr, ifn.UnnamedAddr, decl.UnnamedAddr = g.UnnamedAddr, g.UnnamedAddr, g.UnnamedAddr
 	case 6:
 		k = vfChoice("member", len(hGenM_CallingConv))
 		f.CallingConv = hGenM_CallingConv[k]
@@ -296,6 +313,18 @@ func VfC18_GlobalEnums() {
 	vfAssert("C18.globalenum.global", vfAnd(vfAnd(g2.Linkage == g.Linkage, g2.Preemption == g.Preemption), vfAnd(vfAnd(g2.Visibility == g.Visibility, g2.DLLStorageClass == g.DLLStorageClass), vfAnd(g2.TLSModel == g.TLSModel, g2.UnnamedAddr == g.UnnamedAddr))))
 	vfAssert("C18.globalenum.func", vfAnd(vfAnd(f2.Linkage == f.Linkage, f2.Preemption == f.Preemption), vfAnd(vfAnd(f2.Visibility == f.Visibility, f2.DLLStorageClass == f.DLLStorageClass), vfAnd(f2.CallingConv == f.CallingConv, f2.UnnamedAddr == f.UnnamedAddr))))
 	vfAssert("C18.globalenum.comdat", cd2.Kind == cd.Kind)
+	al2, ifn2 := m2.Aliases[0], m2.IFuncs[0]
+	var decl2 *ir.Func
+	for _, x := range m2.Funcs {
+		if x.Name() == "decl" {
+			decl2 = x
+		}
+	}
+	vfAssert("C18.globalenum.alias", vfAnd(vfAnd(al2.Linkage == al.Linkage, al2.Preemption == al.Preemption), vfAnd(vfAnd(al2.Visibility == al.Visibility, al2.DLLStorageClass == al.DLLStorageClass), vfAnd(al2.TLSModel == al.TLSModel, al2.UnnamedAddr == al.UnnamedAddr))))
+	vfAssert("C18.globalenum.ifunc", vfAnd(vfAnd(ifn2.Linkage == ifn.Linkage, ifn2.Preemption == ifn.Preemption), vfAnd(vfAnd(ifn2.Visibility == ifn.Visibility, ifn2.DLLStorageClass == ifn.DLLStorageClass), vfAnd(ifn2.TLSModel == ifn.TLSModel, ifn2.UnnamedAddr == ifn.UnnamedAddr))))
+	if decl2 != nil {
+		vfAssert("C18.globalenum.declaration", vfAnd(vfAnd(decl2.Linkage == decl.Linkage, decl2.Preemption == decl.Preemption), vfAnd(vfAnd(decl2.Visibility == decl.Visibility, decl2.DLLStorageClass == decl.DLLStorageClass), decl2.UnnamedAddr == decl.UnnamedAddr)))
+	}
 }
 
 // VfC18_GlobalEnumPairs: two header fields at a time (a printer that decides
